@@ -136,7 +136,7 @@ Definition builtin_cfg (l : lcfg) (r : rcfg) (q : breq) : cfg :=
   {| c_oneway := false; c_data := match q_body q with Some _ => true | None => false end; c_trailers := false;
      c_route := RouteForward; c_nhosts := 2; c_retry_on := false; c_num_retries := 0; c_codes := []; c_try_timeout := false;
      c_max_retries := 0; c_recv := builtin_recv l (decide_spec l r q); c_send := []; c_pool := []; c_delay := [];
-     c_snd_err_hdr := false; c_snd_err_data := false; c_snd_err_trl := false; c_http := false; c_nohost_from := None; c_late_reset := false |}.
+     c_snd_err_hdr := false; c_snd_err_data := false; c_snd_err_trl := false; c_http := false; c_nohost_from := None; c_late_reset := false; c_disable_retry := false |}.
 
 (* ---------- correspondence checker: a recorded history of one factory ---------- *)
 (* what was seen for one request: the reply (None = the upstream's), and whether the request was sent upstream *)
